@@ -19,7 +19,7 @@ BOUNDS = {
     "quick": "abc|abt|abct explicit, abc generated/root, diamonds explicit+generated, wide/1, mix3; d=2,w=2; connective objects conn2/abc and the negation closure over ab (real Xor/XNor/Imply/Not structures, 3-4 levels)",
     "thorough": "quick + abcdt, abtn, w=3 families on 3 leaves, depth-3 chains",
 }
-QUICK = ["abc/explicit", "abt/explicit", "abct/explicit", "abc/generated", "abc/root", "diamond/explicit", "diamond/generated", "wide/1", "mix3/abtn/explicit", "d3/abc/explicit", "empty/ab", "illdef/x", "alt/mix3b+abt+explicit",
+QUICK = ["abc/explicit", "abt/explicit", "abct/explicit", "abc/generated", "abc/root", "diamond/explicit", "diamond/generated", "wide/1", "wide/2", "mix3/abtn/explicit", "d3/abc/explicit", "empty/ab", "illdef/x", "alt/mix3b+abt+explicit",
          "conn2/abc/generated", "closure/ab/generated"]
 THOROUGH = QUICK + ["abcdt/explicit", "abtn/explicit", "abu/explicit/w3", "abt/explicit/w3", "d3/abc/explicit", "d3/abt/generated",
                     "abt/generated", "abt/root", "abcu/explicit", "conn2/abcd/generated", "conn2s/abc/generated", "closure/abc/generated"]
